@@ -4,7 +4,7 @@
 //! builder can be replayed on exactly that input.
 //!
 //! Subcommand `hl`. Case fields: <line> <cursor> [<opts>]   (opts: "sh" = sh mode shell)
-//! Output fields: `C` nspans (start end kind)*  |  `PANIC` msg     then   `T` <tree fields>
+//! Output fields: `C` nspans (start end kind)*  |  `PANIC` msg     then   `TREE` <tree fields>
 //!   prog   := `E` | `P` ntok token*
 //!   token  := `O` sc ec | `W` sc ec flags pieces
 //!   flags  := 7 chars 0/1: contains'=' keyword alias function builtin found starts-with'-'
@@ -177,10 +177,38 @@ async fn make_shell(opts: &str) -> Option<brush_core::Shell> {
     Some(sh)
 }
 
+/// Watchdog: a case that does not finish within VERIF_HANG_MS (default 2000) makes the process
+/// print `HANG` as that case's result and exit(3); the driver restarts after it.
+static CASE_NO: std::sync::atomic::AtomicU64 = std::sync::atomic::AtomicU64::new(u64::MAX);
+
+fn start_watchdog() {
+    use std::sync::atomic::Ordering::SeqCst;
+    let limit: u64 = std::env::var("VERIF_HANG_MS").ok().and_then(|s| s.parse().ok()).unwrap_or(2000);
+    let t0 = std::time::Instant::now();
+    std::thread::spawn(move || {
+        let mut seen = (u64::MAX, 0u64);
+        loop {
+            std::thread::sleep(std::time::Duration::from_millis(25));
+            let now = t0.elapsed().as_millis() as u64;
+            let no = CASE_NO.load(SeqCst);
+            if no == u64::MAX {
+                continue;
+            }
+            if seen.0 != no {
+                seen = (no, now);
+            } else if now - seen.1 > limit {
+                println!("HANG");
+                std::process::exit(3);
+            }
+        }
+    });
+}
+
 pub fn run(sub: &str, cases: &[Vec<String>]) -> bool {
     if sub != "hl" {
         return false;
     }
+    start_watchdog();
     let rt = tokio::runtime::Builder::new_multi_thread()
         .worker_threads(2)
         .enable_all()
@@ -188,7 +216,8 @@ pub fn run(sub: &str, cases: &[Vec<String>]) -> bool {
         .expect("rt");
     let shell_bash = rt.block_on(make_shell("")).expect("shell");
     let shell_sh = rt.block_on(make_shell("sh")).expect("shell");
-    for c in cases {
+    for (case_no, c) in cases.iter().enumerate() {
+        CASE_NO.store(case_no as u64, std::sync::atomic::Ordering::SeqCst);
         let line = unhex_str(c.first().map(|s| s.as_str()).unwrap_or("-"));
         let cursor: usize = unhex_str(c.get(1).map(|s| s.as_str()).unwrap_or("-")).parse().unwrap_or(0);
         let opts = unhex_str(c.get(2).map(|s| s.as_str()).unwrap_or("-"));
@@ -215,7 +244,7 @@ pub fn run(sub: &str, cases: &[Vec<String>]) -> bool {
         }
         let t = std::panic::catch_unwind(std::panic::AssertUnwindSafe(|| {
             let mut o: Vec<String> = vec![];
-            push(&mut o, "T");
+            push(&mut o, "TREE");
             dump_prog(shell, &line, &mut o, 0);
             o
         }));
@@ -228,5 +257,6 @@ pub fn run(sub: &str, cases: &[Vec<String>]) -> bool {
         }
         println!("{}", out.join(" "));
     }
+    CASE_NO.store(u64::MAX, std::sync::atomic::Ordering::SeqCst);
     true
 }
